@@ -26,6 +26,46 @@ static void set_where(const std::string& cfg, std::int64_t u, std::int64_t k, in
   g_phase_path = std::string(phase) == "path";
 }
 
+// check_step of common.hpp with a larger diff limit; a deviation record also carries the complete observed
+// simplex set and blocker set, so that the check can compare them with what a known finding predicts
+template <class Model>
+bool skbl_check(Model& m, const bj::object& act, const bj::object& got_act, const bj::value& expected_obs, ReplayCtx& ctx,
+                ReplayStats& st, std::int64_t u, std::int64_t k, int step, const char* phase) {
+  std::vector<Diff> d;
+  bj::value ca = canon(bj::value(act));
+  bj::value cg = canon(bj::value(got_act));
+  for (auto& p : cg.as_object()) {
+    auto it = ca.as_object().find(p.key());
+    if (it == ca.as_object().end()) { d.push_back({std::string("act.") + std::string(p.key()), nullptr, p.value()}); continue; }
+    diff(it->value(), p.value(), std::string("act.") + std::string(p.key()), d, 40);
+  }
+  bj::object obs = m.observe();
+  bj::object eo = expected_obs.as_object();
+  m.mask(eo);
+  m.mask(obs);
+  bj::value cobs = canon(bj::value(obs));
+  diff(bj::value(eo), cobs, "obs", d, 40);
+  if (d.empty()) return true;
+  st.deviations++;
+  if (static_cast<std::size_t>(st.deviations) <= ctx.max_dev_report) {
+    bj::object o;
+    o["kind"] = "deviation";
+    o["cfg"] = st.cfg;
+    o["u"] = u;
+    o["k"] = k;
+    o["step"] = step;
+    o["phase"] = phase;
+    o["act"] = act;
+    o["got_k"] = cobs.as_object().at("k_set");
+    o["got_b"] = cobs.as_object().at("blockers_set");
+    bj::array da;
+    for (auto& x : d) da.push_back(bj::object{{"path", x.path}, {"exp", x.exp}, {"got", x.got}});
+    o["diffs"] = da;
+    std::fprintf(ctx.out, "%s\n", bj::serialize(o).c_str());
+  }
+  return false;
+}
+
 // one group = all behaviours  init ~> u -> v  for the outgoing edges of u; only_k >= 0 restricts to one edge
 template <class Model>
 void run_group(ReplayCtx& ctx, const bj::object& g, ReplayStats& st, std::int64_t only_k, bool check_path) {
@@ -41,7 +81,7 @@ void run_group(ReplayCtx& ctx, const bj::object& g, ReplayStats& st, std::int64_
       bj::object got;
       try { got = m.apply(s.at("act").as_object()); } catch (const std::exception& e) { got["exception"] = e.what(); }
       st.steps++;
-      if (!check_step(m, s.at("act").as_object(), got, ctx.states[s.at("to").as_int64()], ctx, st, u, -1, step, "path")) {
+      if (!skbl_check(m, s.at("act").as_object(), got, ctx.states[s.at("to").as_int64()], ctx, st, u, -1, step, "path")) {
         st.skipped += edges.size();
         return;
       }
@@ -64,7 +104,7 @@ void run_group(ReplayCtx& ctx, const bj::object& g, ReplayStats& st, std::int64_
     try { got = m.apply(act); } catch (const std::exception& ex) { got["exception"] = ex.what(); }
     st.steps += path.size() + 1;
     st.behaviours++;
-    check_step(m, act, got, ctx.states[e.at("to").as_int64()], ctx, st, u, k, static_cast<int>(path.size()), "edge");
+    skbl_check(m, act, got, ctx.states[e.at("to").as_int64()], ctx, st, u, k, static_cast<int>(path.size()), "edge");
   }
 }
 
@@ -132,6 +172,7 @@ void replay_forked(ReplayCtx& ctx, const char* cfgname) {
 
 int main(int argc, char** argv) {
   ReplayCtx ctx = replay_setup(argc, argv);
+  ctx.max_dev_report = 100000;
   if (const char* e = std::getenv("VF_NV")) g_nv = std::atoi(e);
   if (const char* e = std::getenv("VF_HEAVY")) g_heavy = std::atoi(e) != 0;
   g_out = ctx.out;
